@@ -24,7 +24,8 @@ Commands:
     item <agent> <timestep> <action> <status> <request VALUE> <parameters VALUE> <data VALUE>  -> ok
     step                             -> `ok a=cur:total:hist,b=…` | `raised <err>` (act; advance; update_agents, exceptions included)
     mem                              -> component memories per agent
-    locs                             -> `location_in_state` of every component per agent (`_` = the component reads no state)
+    locs                             -> per agent and component `<location_in_state>|<read-set>` (`_` = reads no state; read-set ⊆ `ars`:
+                                        action, request, response.status of the agent's own latest history item)
     access <VALUE path>              -> `ok <fingerprint>` | `absent` | `raised <err>`  (access_from_nested_dict on the state)
     restricted <VALUE list of paths> -> fingerprint of the state projected on those paths
     fingerprint                      -> fingerprint of the state
@@ -197,16 +198,13 @@ def showMem (g : Game) : String :=
   ",".intercalate (g.agents.map (fun p =>
     s!"{escape p.1}=" ++ ":".intercalate (p.2.comps.map (fun c => match memOf c.1 with | some m => showRat m | none => "_"))))
 
-def locOf : Comp → Option (List String)
-  | .fileIntegrity n fo fi => some (fileLoc n fo fi)
-  | .web404 n sv _ _ => some (web404Loc n sv)
-  | .webpage n _ _ => some (webpageLoc n)
-  | _ => none
+def showReads (r : Reads) : String :=
+  (if r.action then "a" else "") ++ (if r.request then "r" else "") ++ (if r.status then "s" else "")
 
 def showLocs (g : Game) : String :=
   ",".intercalate (g.agents.map (fun p =>
     s!"{escape p.1}=" ++ ":".intercalate (p.2.comps.map (fun c =>
-      match locOf c.1 with | some l => "/".intercalate (l.map escape) | none => "_"))))
+      (match c.1.loc with | some l => "/".intercalate (l.map escape) | none => "_") ++ "|" ++ showReads c.1.reads))))
 
 def parseGraph (s : String) : Option (Graph Name) :=
   if s = "-" then some [] else
